@@ -171,6 +171,7 @@ def checkDT : CDT → Bool
   | .array lo hi m => decide (lo ≤ hi) && checkDT m
   | .tuple _ => true
 
+mutual
 /-- `dt.default` -/
 def dtDefault : CDT → CVal
   | .double lo hi _ => if geOpt 0 lo && leOpt 0 hi then .num 0 else match lo with | some q => .num q | none => .other
@@ -179,7 +180,11 @@ def dtDefault : CDT → CVal
   | .bool => .bool false
   | .enum ms => match ms with | m :: _ => .num (4 * m.2) | [] => .other
   | .array lo _ m => .list (List.replicate lo (dtDefault m))
-  | .tuple _ => .none
+  | .tuple ms => .list (dtDefaultAll ms)          -- `tuple(el.default for el in members)`
+def dtDefaultAll : List CDT → List CVal
+  | [] => []
+  | m :: ms => dtDefault m :: dtDefaultAll ms
+end
 
 def limitDT : LimitKind → CDT → CDT
   | .limits, dt => .tuple [dt, dt]
